@@ -638,7 +638,7 @@ class permutation_test_onesample(permutation_test):
         if axis == 1:
             rand_sign = rand_sign.transpose()
         rand_data *= rand_sign
-        self.random_Tvalues = onesample_stat(rand_data, rand_vardata, stat_id, base, axis).squeeze()
+        self.random_Tvalues = onesample_stat(rand_data, rand_vardata, stat_id, base, axis, niter=niter).squeeze()
         self.random_Tvalues.sort()
 
 
@@ -711,7 +711,7 @@ class permutation_test_onesample_graph(permutation_test):
         if axis == 1:
             rand_sign = rand_sign.transpose()
         rand_data *= rand_sign
-        self.random_Tvalues = onesample_stat(rand_data, rand_vardata, stat_id, base, axis).squeeze()
+        self.random_Tvalues = onesample_stat(rand_data, rand_vardata, stat_id, base, axis, niter=niter).squeeze()
         self.random_Tvalues.sort()
 
 
@@ -793,13 +793,12 @@ class permutation_test_twosample(permutation_test):
             perm_data = (perm_data.transpose().ravel()[ravel_rand_perm.ravel()].reshape(n1+n2,ndraws)).transpose()
             if vardata1 is not None:
                 perm_vardata = (perm_vardata.transpose().ravel()[ravel_rand_perm.ravel()].reshape(n1+n2,ndraws)).transpose()
-        perm_data1 = perm_data[:n1]
-        perm_data2 = perm_data[n1:]
+        # split the relabelled sample along the subject axis
+        perm_data1, perm_data2 = np.split(perm_data, [n1], axis=axis)
         if vardata1 is None:
             perm_vardata1 = None
             perm_vardata2 = None
         else:
-            perm_vardata1 = perm_vardata[:n1]
-            perm_vardata2 = perm_vardata[n1:]
-        self.random_Tvalues = twosample_stat(perm_data1, perm_vardata1, perm_data2, perm_vardata2, stat_id, axis).squeeze()
+            perm_vardata1, perm_vardata2 = np.split(perm_vardata, [n1], axis=axis)
+        self.random_Tvalues = twosample_stat(perm_data1, perm_vardata1, perm_data2, perm_vardata2, stat_id, axis, niter=niter).squeeze()
         self.random_Tvalues.sort()
